@@ -53,6 +53,7 @@ def program(s, rnd):
         add("t(lambda: s.find(%s, %d, %d))" % (q, b, e), op="find3", sub=sub, beg=b, end=e)
         add("t(lambda: s.count(%s))" % q, op="count", sub=sub)
         add("t(lambda: (s.startswith(%s), s.endswith(%s)))" % (q, q), op="startsends", sub=sub)
+        add("t(lambda: (s.startswith(%s, %d), s.startswith(%s, %d, %d), s.endswith(%s, %d), s.endswith(%s, %d, %d), s.count(%s, %d, %d), s.startswith((%s, 'zz'), %d), s.endswith(('zz', %s), None, %d)))" % (q, b, q, b, e, q, b, q, b, e, q, b, e, q, b, q, e), op="startsends_bounds", sub=sub, beg=b, end=e)
         if sub:
             add("t(lambda: s.split(%s))" % q, op="split", sub=sub)
             add("t(lambda: s.replace(%s, 'Z'))" % q, op="replace", sub=sub)
@@ -66,6 +67,9 @@ def program(s, rnd):
     add("t(lambda: [chr(ord(c)) == c for c in s])", op="ordchr")
     add("t(lambda: eval(repr(s)) == s)", op="repr_roundtrip")
     add("t(lambda: repr(s))", op="repr")
+    add("t(lambda: ascii(s))", op="ascii")
+    add("t(lambda: eval(ascii(s)) == s)", op="ascii_roundtrip")
+    add("t(lambda: ascii([s, (s,)]))", op="ascii_nested")
     add("t(lambda: eval(repr((s, [s, 1, 2.5], (s,), -7, 2**70))) == (s, [s, 1, 2.5], (s,), -7, 2**70))", op="repr_nested")
     return "\n".join(L) + "\n", meta
 
@@ -152,6 +156,18 @@ def check(res):
     impl = pydiff.run_impl(progs); ref = pydiff.run_ref(progs)
     findings = vlib.load_findings("C14")
     mism = []; rows = []; rowmeta = []; n = 0; nontrivial = 0; known = {}
+    # chr / ord over every code point up to U+0900 and around every encoding-length and plane boundary
+    sweep = ("pts = list(range(0, 0x900)) + [0xd7fe, 0xd7ff, 0xe000, 0xe001, 0xfffd, 0xfffe, 0xffff, 0x10000, 0x10001, 0x1f600, 0xfffff, 0x100000, 0x10fffe, 0x10ffff]\n"
+             "bad = []\nfor i in pts:\n    c = chr(i)\n    ok = len(c) == 1 and ord(c) == i and c == eval(repr(c)) and c == eval(ascii(c)) and (c + 'x')[0] == c and ('x' + c)[1] == c and c in (c + c) and (c + c).find(c) == 0 and (c * 3).count(c) == 3 and len(c * 3) == 3\n"
+             "    if not ok:\n        bad.append(i)\nprint(bad)\n"
+             "print([i for i in pts if chr(i).strip() == ''], [i for i in pts if len(('a' + chr(i) + 'b').split()) == 2], [i for i in pts if (chr(i) + 'a' + chr(i)).lstrip() == 'a' + chr(i)])\n"
+             "for j in (-1, -70, 0x110000, 0x110001, 0x7fffffff):\n    try:\n        chr(j)\n        print('accepted', j)\n    except ValueError:\n        print('ValueError')\n    except OverflowError:\n        print('OverflowError')\n"
+             "for t in ('', 'ab', b'', b'ab'):\n    try:\n        print(ord(t))\n    except TypeError:\n        print('TypeError')\n"
+             "print([ord(c) for c in '\\x7f\\x80\\xff\\u0100\\u07ff\\u0800\\uffff\\U00010000\\U0010ffff'], ord(b'\\x80'), [ord(chr(i)) for i in (127, 128, 129, 255, 256)])\n")
+    sa = pydiff.run_impl([sweep])[0]; sb = pydiff.run_ref([sweep])[0]
+    n += 1
+    if (sa.get("out", ""), sa.get("err", "")) != (sb.get("out", ""), sb.get("err", "")) or sa.get("panic") or sa.get("crash"):
+        mism.append((dict(op="chr_ord_sweep", program=sweep), str((sa.get("out", ""), sa.get("err", ""), sa.get("panic") or sa.get("crash") or ""))[:400], str((sb.get("out", ""), sb.get("err", "")))[:400]))
     for s, m, a, b in zip(ss, metas, impl, ref):
         la = a.get("out", "").splitlines(); lb = b.get("out", "").splitlines()
         multibyte = any(ord(c) > 127 for c in s)
